@@ -112,10 +112,21 @@ func (e *Engine) lemmaObligations(lm *Lemma) (obls []*Obligation, err error) {
 		}
 		// induction hypothesis: the lemma for all parameter values with the
 		// induction variable one smaller.
-		vals2, bvs := x.lemmaParams(lm, true)
-		req2, ens2 := x.lemmaFormula(lm, vals2)
-		ih := Forall(bvs, Implies(And(Eq(vals2[lm.Induction].T, Sub(iv.T, IntLit(1))), req2), ens2))
-		hyps = append(hyps, ih)
+		if lm.SameParams {
+			// the lemma at v-1 with the other parameters unchanged: ground
+			vals2 := map[string]Val{}
+			for k, v := range vals {
+				vals2[k] = v
+			}
+			vals2[lm.Induction] = Val{T: Sub(iv.T, IntLit(1)), Ty: iv.Ty}
+			req2, ens2 := x.lemmaFormula(lm, vals2)
+			hyps = append(hyps, Implies(req2, ens2))
+		} else {
+			vals2, bvs := x.lemmaParams(lm, true)
+			req2, ens2 := x.lemmaFormula(lm, vals2)
+			ih := Forall(bvs, Implies(And(Eq(vals2[lm.Induction].T, Sub(iv.T, IntLit(1))), req2), ens2))
+			hyps = append(hyps, ih)
+		}
 	}
 	for _, un := range lm.Uses {
 		ul := e.lemmas[un]
@@ -164,6 +175,14 @@ func (x *Exec) lemmaHyps(o *Obligation) []*Term {
 	}
 	var out []*Term
 	for _, name := range x.fc.Uses {
+		// `use lemma @substr`: only for obligations whose name contains substr
+		if k := strings.Index(name, "@"); k >= 0 {
+			scope := strings.TrimSpace(name[k+1:])
+			name = strings.TrimSpace(name[:k])
+			if !strings.Contains(o.Name, scope) {
+				continue
+			}
+		}
 		lm := x.eng.lemmas[name]
 		if lm == nil {
 			panic(engineError{"unknown lemma " + name})
@@ -174,4 +193,33 @@ func (x *Exec) lemmaHyps(o *Obligation) []*Term {
 		out = append(out, x.lemmaQuantified(lm))
 	}
 	return out
+}
+
+// lemmaInstance: the lemma named by call (lemma(args...)) instantiated with
+// the given arguments evaluated in env:  requires => ensures, a ground formula.
+func (x *Exec) lemmaInstance(env *CEnv, call *CExpr) *Term {
+	if call.Kind != "call" {
+		panic(engineError{"by: lemma application expected, got " + exprSrc(call)})
+	}
+	lm := x.eng.lemmas[call.Name]
+	if lm == nil {
+		panic(engineError{"by: unknown lemma " + call.Name})
+	}
+	if len(call.Args) != len(lm.Params) {
+		panic(engineError{fmt.Sprintf("by: lemma %s expects %d arguments", lm.Name, len(lm.Params))})
+	}
+	pe := &CEnv{x: x, pkg: x.eng.pkgTypes[lm.Pkg]}
+	vals := map[string]Val{}
+	for i, p := range lm.Params {
+		ty := pe.cty(p.Type)
+		v := env.eval(call.Args[i])
+		if ty.K == TSlice {
+			s := env.asSeq(call.Args[i], v)
+			vals[p.Name] = Val{T: s.T, Ty: ty, Seq: &SeqView{Off: s.Seq.Off, Len: s.Seq.Len, Elem: ty.Elem}}
+			continue
+		}
+		vals[p.Name] = Val{T: x.coerceTo(v, ty), Ty: ty}
+	}
+	req, ens := x.lemmaFormula(lm, vals)
+	return Implies(req, ens)
 }
